@@ -27,35 +27,87 @@ def rule_unordered_comparisons(ctx, rep, rid: str) -> None:
         body = chain.body_of(opn)
         if body is None:
             raise AnalysisError(f"no handler for {opn}")
-        pred = None
-        for s in body:
-            for n in walk_no_nested(s):
-                if isinstance(n, ast.Compare) and isinstance(n.left, ast.Call) and norm(n.left.func) == "self._compare":
-                    pred = n
         key = f"{df.qual}:{opn}:NaN"
-        if pred is None:
-            rep.ok(rid, key, {"note": "handler does not use _compare"})
+        # the expression pushed by the handler, with locals assigned from _compare(...) marked
+        cmp_vars = set()
+        pushed = None
+        for s in body:
+            if isinstance(s, ast.Assign) and isinstance(s.value, ast.Call) and norm(s.value.func) == "self._compare" and isinstance(s.targets[0], ast.Name):
+                cmp_vars.add(s.targets[0].id)
+            for n in walk_no_nested(s):
+                if isinstance(n, ast.Call) and norm(n.func) == "self.stack.append" and n.args:
+                    pushed = n.args[0]
+        if pushed is None:
+            rep.bad(rid, key, f"the {opn} handler pushes no result", f"{df.module.rel}:{body[0].lineno}")
+            continue
+        uses = any((isinstance(x, ast.Name) and x.id in cmp_vars) or (isinstance(x, ast.Call) and norm(x.func) == "self._compare") for x in ast.walk(pushed))
+        if not uses:
+            rep.ok(rid, key, {"note": "result does not depend on _compare"})
             continue
         bad = None
         for v in nan_vals:
             if not isinstance(v, ast.Constant):
-                rep.ok(rid, key, {"nan_result": norm(v)})
                 continue
-            k = pred.comparators[0]
-            if not isinstance(k, ast.Constant):
-                continue
-            a, b = v.value, k.value
-            op = pred.ops[0]
-            try:
-                res = {ast.Lt: a < b, ast.LtE: a <= b, ast.Gt: a > b, ast.GtE: a >= b, ast.Eq: a == b, ast.NotEq: a != b}[type(op)]
-            except Exception:
-                continue
-            if res:
-                bad = (a, norm(pred))
+            r = _fold(pushed, cmp_vars, v.value)
+            if r is True:
+                bad = (v.value, norm(pushed))
+            elif r is None:
+                rep.note(f"{opn}: predicate {norm(pushed)} not foldable")
         if bad:
-            rep.bad(rid, key, f"_compare returns {bad[0]!r} when an operand is NaN and the {opn} handler tests `{bad[1]}`, which is true for that value: a comparison with NaN yields true", f"{df.module.rel}:{body[0].lineno}")
+            rep.bad(rid, key, f"_compare returns {bad[0]!r} when an operand is NaN and the {opn} handler pushes `{bad[1]}`, which is true for that value: a comparison with NaN yields true", f"{df.module.rel}:{body[0].lineno}")
         else:
-            rep.ok(rid, key, {"predicate": norm(pred)})
+            rep.ok(rid, key, {"predicate": norm(pushed), "nan_result": [norm(v) for v in nan_vals]})
+
+
+def _fold(e: ast.AST, cmp_vars, value):
+    """Evaluate a boolean expression over constants, with the comparison result replaced by `value`."""
+    if isinstance(e, ast.Constant):
+        return e.value
+    if isinstance(e, ast.Name) and e.id in cmp_vars:
+        return value
+    if isinstance(e, ast.Call) and norm(e.func) == "self._compare":
+        return value
+    if isinstance(e, ast.BoolOp):
+        vals = [_fold(v, cmp_vars, value) for v in e.values]
+        if isinstance(e.op, ast.And):
+            if any(v is False for v in vals):
+                return False
+            return None if any(v is None for v in vals) else all(bool(v) for v in vals)
+        if any(v is True for v in vals):
+            return True
+        return None if any(v is None for v in vals) else any(bool(v) for v in vals)
+    if isinstance(e, ast.UnaryOp) and isinstance(e.op, ast.Not):
+        v = _fold(e.operand, cmp_vars, value)
+        return None if v is None else (not v)
+    if isinstance(e, ast.Compare) and len(e.ops) == 1:
+        a, b = _fold2(e.left, cmp_vars, value), _fold2(e.comparators[0], cmp_vars, value)
+        if a is _UNK or b is _UNK:
+            return None
+        op = e.ops[0]
+        try:
+            if isinstance(op, ast.Is):
+                return a is b
+            if isinstance(op, ast.IsNot):
+                return a is not b
+            if a is None or b is None:
+                return None if not isinstance(op, (ast.Eq, ast.NotEq)) else ((a == b) if isinstance(op, ast.Eq) else (a != b))
+            return {ast.Lt: a < b, ast.LtE: a <= b, ast.Gt: a > b, ast.GtE: a >= b, ast.Eq: a == b, ast.NotEq: a != b}[type(op)]
+        except Exception:
+            return None
+    return None
+
+
+_UNK = object()
+
+
+def _fold2(e, cmp_vars, value):
+    if isinstance(e, ast.Constant):
+        return e.value
+    if isinstance(e, ast.Name) and e.id in cmp_vars:
+        return value
+    if isinstance(e, ast.Call) and norm(e.func) == "self._compare":
+        return value
+    return _UNK
 
 
 def rule_host_operator_pitfalls(ctx, rep, rid: str) -> None:
